@@ -18,7 +18,10 @@ EXPLANATION = (
     "the opponent's piece set and en passant is generated from the current target only; (R9) sliders see the whole-board occupancy. "
     'Equality of the generated set with the FIDE set for every position is NOT decided. R1 also requires that nothing but the five '
     'generators and the filter touches the candidate list between its creation and its return (no pre-filter, truncation or reordering '
-    'in between). Conditions whose other side panics (assertions) are not counted as guards of a castle move (R3).'
+    'in between). Conditions whose other side panics (assertions) are not counted as guards of a castle move (R3). R1 also requires the'
+    ' en-passant generator on every returning path of pawn generation (only a path that established an empty pawn set may leave without'
+    ' it); (R9) the generator trusts the rights and the target the board holds, so the effect tables of apply that maintain them '
+    '(C03.R1-R3) are part of this property.'
 )
 ASSUMPTIONS = [
     "apply/undo are correct (C03, C04), the attack tables are correct (C11)",
